@@ -25,6 +25,7 @@ pub(crate) fn run(name: &str, bound: usize, shard: usize, nshards: usize) -> Val
         "learn_recall" => api::learn_recall(bound),
         "user_files" => api::user_files(bound),
         "update_engine" => api::update_engine(bound),
+        "layout_api" => api::layout_api(bound),
         "smart_quote" => api::smart_quote(bound),
         "ansi" => api::ansi(bound),
         "emoji_tables" => api::emoji_tables(bound, shard, nshards),
@@ -1214,6 +1215,48 @@ mod api {
         }
         crate::verif_driver::reset_user_files();
         o.sample(json!({"edit": "remove entry"}));
+        o.done()
+    }
+
+    /// C04 through the public API, against the layout file itself: in ONE context every published key is pressed plain, with AltGr
+    /// and plain again (all helpers off, key pad on): each press emits exactly the assignment of its plane, whatever was pressed before
+    pub(crate) fn layout_api(_bound: usize) -> Value {
+        let mut o = Out::new("layout_api", 1, "every published key x {plain, AltGr, plain again} in one context x {Probhat, synthetic layout}, helpers off, key pad on; expected text read from the layout file");
+        let table: Value = serde_json::from_str(&std::fs::read_to_string(crate::verif_driver::gen_file("keytable.json")).unwrap_or("[]".into())).unwrap_or(json!([]));
+        for layout_path in [crate::verif_driver::probhat_layout(), crate::verif_driver::synthetic_layout()] {
+            let raw: Value = serde_json::from_str(&std::fs::read_to_string(&layout_path).unwrap()).unwrap();
+            let entries = raw["layout"].as_object().unwrap().clone();
+            let cfgv = json!({"layout": layout_path, "database_dir": crate::verif_driver::data_dir(), "phonetic_suggestion": false, "include_english": false,
+                "fixed_suggestion": false, "fixed_vowel": false, "fixed_chandra": false, "fixed_kar": false, "fixed_old_reph": false,
+                "fixed_numpad": true, "fixed_kar_order": false, "ansi": false, "smart_quote": false});
+            let mut s = Sess::new(cfgv);
+            let mut reported = 0;
+            for pass in 0..2 {
+                for r in table.as_array().cloned().unwrap_or_default() {
+                    let code = r["code"].as_u64().unwrap_or(0) as u16;
+                    let (kind, name) = (r["kind"].as_str().unwrap_or(""), r["name"].as_str().unwrap_or(""));
+                    // second pass: AltGr first, then plain
+                    let mods: [u8; 3] = if pass == 0 { [0, 2, 0] } else { [2, 0, 2] };
+                    for m in mods {
+                        o.cases += 1;
+                        let exp: Option<String> = match kind {
+                            "main" => entries.get(&format!("Key_{}_{}", name, if m & 2 == 2 { "AltGr" } else { "Normal" })).and_then(|v| v.as_str()).filter(|v| !v.is_empty()).map(|v| v.to_string()),
+                            "pad" => entries.get(name).and_then(|v| v.as_str()).filter(|v| !v.is_empty()).map(|v| v.to_string()),
+                            _ => None,
+                        };
+                        let sg = s.code_mod(code, m, 0);
+                        let got = if sg.is_empty() { None } else { Some(sg.get_lonely_suggestion().to_string()) };
+                        s.finish();
+                        if exp.is_some() { o.nontrivial += 1; }
+                        if got != exp && reported < 4 {
+                            reported += 1;
+                            o.fail(json!({"clause": "C04 a key emits exactly the text the layout file assigns to it for the current AltGr state, whatever was pressed before in this context", "layout": layout_path, "key": code, "modifier": m, "history": s.history(), "observed": got, "expected": exp}));
+                        }
+                    }
+                }
+            }
+        }
+        o.sample(json!({"key": 41110, "modifier": 2}));
         o.done()
     }
 
